@@ -41,3 +41,78 @@ def _js(x, depth=0):
     if isinstance(x, (list, tuple, set, frozenset)):
         return [_js(v, depth + 1) for v in list(x)[:24]]
     return repr(x)[:80]
+
+
+# ----------------------------------------------------------------------------- prefix histories
+# The contracts judge single calls; "all well-formed sequences" includes sequences that earlier public operations
+# produced on the SAME object (memoised state, stale views, in-place edits).  A prefix history is applied before the
+# operation under test so that history-dependent defects become reachable.
+
+PREFIX_OPS = ["quantise", "quantise_same", "qnl", "normalise", "cutoff", "pad", "transpose", "set_channel", "scale", "copy",
+              "read_abs", "read_rel", "iter_abs_velocity_edit", "iter_rel_velocity_edit", "merge_empty"]
+
+
+def random_prefix(rng, n=(0, 3), same_steps=None):
+    ops = []
+    for _ in range(rng.randint(*n)):
+        name = rng.choice(PREFIX_OPS)
+        op = {"op": name}
+        if name == "quantise":
+            op["steps"] = rng.choice([[12], [6, 8], [24], None, [4]])
+        elif name == "quantise_same":
+            op["steps"] = same_steps
+        elif name == "cutoff":
+            m = rng.randint(2, 40)
+            op["m"], op["r"] = m, rng.randint(1, m)
+        elif name == "pad":
+            op["n"] = rng.randrange(0, 300)
+        elif name == "transpose":
+            op["k"] = rng.choice([1, -1, 2, 12, -12])
+        elif name == "set_channel":
+            op["c"] = rng.randrange(0, 3)
+        elif name == "scale":
+            op["k"] = rng.choice([1, 2, 3])
+        ops.append(op)
+    return ops
+
+
+def apply_prefix(s, ops):
+    """applies a prefix history to the Sequence s (returns the object to continue with: `copy` replaces it)"""
+    from scoda.enumerations.message_type import MessageType as MT
+    for op in ops:
+        n = op["op"]
+        if n in ("quantise", "quantise_same"):
+            s.quantise(None if op.get("steps") is None else list(op["steps"]))
+        elif n == "qnl":
+            s.quantise_note_lengths()
+        elif n == "normalise":
+            s.normalise()
+        elif n == "cutoff":
+            s.cutoff(op["m"], op["r"])
+        elif n == "pad":
+            s.pad(op["n"])
+        elif n == "transpose":
+            s.transpose(op["k"])
+        elif n == "set_channel":
+            s.set_channel(op["c"])
+        elif n == "scale":
+            s.scale(op["k"], quantise_afterwards=False)
+        elif n == "copy":
+            s = s.copy()
+        elif n == "read_abs":
+            s.abs
+        elif n == "read_rel":
+            s.rel
+        elif n == "iter_abs_velocity_edit":
+            # (ticks are not edited through the generator: moving a message out of time order is not a legal history)
+            for m in s.messages_abs():
+                if m.message_type == MT.NOTE_ON:
+                    m.velocity = (m.velocity % 127) + 1
+        elif n == "iter_rel_velocity_edit":
+            for m in s.messages_rel():
+                if m.message_type == MT.NOTE_ON:
+                    m.velocity = (m.velocity % 127) + 1
+        elif n == "merge_empty":
+            from scoda.sequences.sequence import Sequence
+            s.merge([Sequence()])
+    return s
